@@ -716,22 +716,34 @@ def roundtrip_through_the_real_stack(desc):
         H.check("C03:re-encoding-the-decoded-values-reproduces-the-pdu", H.eq(bytes(pdu2), bytes(pdu)))
 
 
+def d_condensed_nibble_const():
+    # a constant with a condensed bit mask (0xF0: four bits on the wire) that shares its byte with a value: the byte is
+    # not determined by constants.  Only the prefix is stated for this description - the wire image of condensed masks
+    # is an open finding (known_findings.json)
+    sub = CodedConstParameter(oid=None, short_name="sub", long_name=None, description=None, semantic=None,
+                              diag_coded_type=B.std_type(4, mask=0xF0, condensed=True), coded_value=0xA,
+                              byte_position=1, bit_position=0, sdgs=[])
+    return B.request([B.coded_const("sid", 0x22, 0), sub, B.value_param("mode", B.dop("u4", 4), 1, 4)]), \
+        [("mode", ("uint", 4))], None
+
+
+PREFIX_ONLY = {"condensed-nibble-const": d_condensed_nibble_const}
 PREFIX_DESCRIPTIONS = ["sid+u8", "bitpos-spill", "lowhigh-12+4", "phys-const", "matching-request+const", "multiplexer",
-                       "two-nibble-constants"]
+                       "two-nibble-constants", "condensed-nibble-const"]
 # number of leading bytes that are fully determined by constants (for responses: given the whole triggering request)
 CONSTANT_BYTES = {"sid+u8": 1, "bitpos-spill": 1, "lowhigh-12+4": 1, "phys-const": 2, "matching-request+const": 5,
-                  "multiplexer": 1, "two-nibble-constants": 2}
+                  "multiplexer": 1, "two-nibble-constants": 2, "condensed-nibble-const": 1}
 
 
 @harness(props=["C06", "C08"], strength="B", family=lambda t, s: [{"desc": k} for k in PREFIX_DESCRIPTIONS],
-         bound="six of the concrete descriptions (constants sharing a byte with values, request echoes, physical "
-         "constants); values and the triggering request symbolic",
+         bound="seven of the concrete descriptions (constants sharing a byte with values, request echoes, physical "
+         "constants) and a constant with a condensed bit mask sharing its byte with a value; values and the triggering request symbolic",
          functions=[composite_codec_get_coded_const_prefix, Request.coded_const_prefix, Response.coded_const_prefix],
          covers=["encoded"], assumes=["A-bitstruct"])
 def constant_prefix_is_a_prefix_of_every_message(desc):
     """the constant prefix by which messages are attributed to coding objects (prefix tree of DiagLayer) is a prefix
     of every PDU the coding object encodes - also when only the beginning of the triggering request is known"""
-    codec, specs, trigger = DESCRIPTIONS[desc]()
+    codec, specs, trigger = (PREFIX_ONLY[desc] if desc in PREFIX_ONLY else DESCRIPTIONS[desc])()
     values = {name: _value(name, kind) for (name, kind) in specs}
     request_bytes = H.bytes("triggering_request", 0, 5) if trigger else None
     try:
